@@ -96,3 +96,17 @@ package lamport
 //@   trusted
 //@   modifies fileValue
 //@   ensures result1 == nil ==> result != nil && fresh(result)
+
+// ---- a clock behind the interface (C05) -------------------------------------------------------------------------
+// value[c]: the current value of clock c. Assumed for the clocks behind the interface (and verified above for the two
+// implementations): incrementing hands out the new, strictly greater value; witnessing never lowers a clock and lifts it
+// to at least the time seen.
+//@ ghost var value map[Clock]uint64
+//@ func Clock.Increment
+//@   modifies value
+//@   ensures [strictly-greater] result1 == nil ==> result > old(value[recv]) && value[recv] == result
+//@   ensures [monotone] forall c Clock :: { value[c] } value[c] >= old(value[c])
+//@ func Clock.Witness
+//@   modifies value
+//@   ensures [witnessed] result == nil ==> value[recv] >= time
+//@   ensures [monotone] forall c Clock :: { value[c] } value[c] >= old(value[c])
